@@ -1,0 +1,79 @@
+//go:build verif
+
+// Contracts for token introspection (property C26). Comment-only.
+//
+// The resolver is reached only on a path where, in this order: introspection is enabled, the
+// caller was authenticated AND is on the allow-list (the 403 is decided before the subject is
+// read), the per-caller rate limiter admitted the call, the body yielded a credential of 1..4096
+// bytes, and that credential is not JWS-shaped. Every refusal body is a function of a fixed code,
+// every 404 after authentication says "unresolved", and no log line receives the credential.
+
+package vgirpc
+
+// The pattern the code compiles denotes the language of this reference pattern (three
+// dot-separated base64url segments, the last possibly empty); jwsShaped is that language.
+//@ regex introspectJWSShaped [C26] == `\A[A-Za-z0-9_-]+\.[A-Za-z0-9_-]+\.[A-Za-z0-9_-]*\z`
+
+// ---- the fixed-window limiter: per key, at most perWindow admissions per window ----
+//
+//@ pure func wfLimiter(l *introspectRateLimiter) bool = l != nil && l.counts != nil &&
+//@     (forall k string :: has(l.counts, k) ==> 1 <= l.counts[k] && l.counts[k] <= l.perWindow)
+//@ encapsulated introspectRateLimiter.counts, introspectRateLimiter.perWindow, introspectRateLimiter.windowStart by newIntrospectRateLimiter, (*introspectRateLimiter).allow
+//@ ghost pred limiterAdmitted(l *introspectRateLimiter, key string)
+//
+//@ func newIntrospectRateLimiter
+//@   property C26
+//@   ensures [wf] wfLimiter(result)
+//
+//@ func (*introspectRateLimiter).allow
+//@   property C26
+//@   objinvariant wfLimiter(l)
+//@   # (the whole counts map may change: a new window clears it)
+//@   modifies l.windowStart, l.counts[key]
+//@   establishes result ==> limiterAdmitted(l, key)
+//@   # an admission is counted, and never takes the key's count in this window past the limit
+//@   ensures [counted] result ==> has(l.counts, key) && 1 <= l.counts[key] && l.counts[key] <= l.perWindow
+//@   ensures [local_step_ret3] l.counts[key] == 1 || (old(has(l.counts, key)) && l.counts[key] == old(l.counts[key]) + 1)
+//@   # a refusal means the key has used up the window, and changes no count of a window that goes on
+//@   ensures [local_refused_ret2] !result && (has(l.counts, key) ? l.counts[key] : 0) >= l.perWindow
+//@   ensures [local_refusedframe_ret2] l.windowStart == old(l.windowStart) ==> (forall k string :: has(l.counts, k) == old(has(l.counts, k)) && l.counts[k] == old(l.counts[k]))
+
+// ---- the subject: at most 8 KiB of body is read, the credential is 1..4096 bytes ----
+//
+//@ func readIntrospectToken
+//@   property C26
+//@   at call io.LimitReader assert [bodycap] arg1 == 8193
+//@   ensures [sizecap] result1 ==> result0 != "" && len(result0) <= 4096
+
+// The introspection configuration is built once, by EnableTokenIntrospection (checked package-wide).
+//@ immutable tokenIntrospection.limiter
+//@ immutable tokenIntrospection.principals
+//@ immutable tokenIntrospection.resolver
+//@ immutable tokenIntrospection.defaultTTL
+
+// ---- the handler ----
+//
+//@ func (*HttpServer).handleIntrospectToken
+//@   property C26
+//@   at call "field:tokenIntrospection.resolver" assert [enabled] cfg != nil
+//@   # the allow-list verdict is taken where the limiter is consulted (nothing runs in between);
+//@   # the resolver and the body reader are reached only through that point
+//@   pathflag judged
+//@   at call (*introspectRateLimiter).allow assert [allowlisted] auth != nil && auth.Authenticated && caller == auth.Principal && has(cfg.principals, caller) && cfg.principals[caller] && arg0 == cfg.limiter && arg1 == caller
+//@   at call (*introspectRateLimiter).allow mark judged
+//@   at call "field:tokenIntrospection.resolver" assert [judged] judged
+//@   at call "field:tokenIntrospection.resolver" assert [ratelimited] limiterAdmitted(cfg.limiter, caller)
+//@   at call "field:tokenIntrospection.resolver" assert [subject] arg0 == credential && credential != "" && len(credential) <= 4096 && !jwsShaped(credential)
+//@   # the caller is judged before anything of the subject is read
+//@   at call readIntrospectToken assert [callerfirst] judged && limiterAdmitted(cfg.limiter, caller)
+//@   # the closed set of refusals; after authentication every 404 is the one "unresolved" answer
+//@   at call writeIntrospectRefusal assert [closedset] (arg1 == 404 && arg2 == "not_enabled" && cfg == nil) || (arg1 == 403 && arg2 == "not_an_introspector") ||
+//@       (arg1 == 429 && arg2 == "rate_limited") || (arg1 == 404 && arg2 == "unresolved") || (arg1 == 503 && arg2 == "unavailable")
+//@   at call writeIntrospectRefusal after (*HttpServer).authenticate assert [one404] arg1 == 404 ==> arg2 == "unresolved"
+
+// A refusal body is a function of the code alone.
+//
+//@ func writeIntrospectRefusal
+//@   property C26
+//@   at call fmt.Fprintf assert [fixedbody] arg1 == "{\"error\":%q}" && len(arg2) == 1 && arg2[0] == iface(code)
+//@   at call http.ResponseWriter.WriteHeader assert [status] arg1 == status
